@@ -68,6 +68,8 @@ type loader struct {
 	loading map[string]bool
 	srcs    map[string]string
 	errs    []error
+	// reversed: see LoadReversed
+	reversed bool
 }
 
 func (l *loader) Import(path string) (*types.Package, error) { return l.ImportFrom(path, "", 0) }
@@ -155,7 +157,19 @@ func (l *loader) load(p *synth.Pkg) (*packages.Package, error) {
 			FileVersions: map[*ast.File]string{},
 		},
 	}
-	for _, f := range p.Files {
+	// go/packages parses the files of a package concurrently: which file enters the FileSet first (and so
+	// how token positions of different files compare) is not fixed. The reversed mode parses them last to
+	// first; Syntax and GoFiles keep the order of the file list, as with the real loader.
+	parsed := make([]*ast.File, len(p.Files))
+	order := make([]int, len(p.Files))
+	for i := range order {
+		order[i] = i
+		if l.reversed {
+			order[i] = len(p.Files) - 1 - i
+		}
+	}
+	for _, i := range order {
+		f := p.Files[i]
 		src, err := l.spec.RenderFile(p, f)
 		if err != nil {
 			return nil, err
@@ -166,7 +180,11 @@ func (l *loader) load(p *synth.Pkg) (*packages.Package, error) {
 		if err != nil {
 			return nil, err
 		}
-		pk.Syntax = append(pk.Syntax, af)
+		parsed[i] = af
+	}
+	for i, f := range p.Files {
+		abs := filepath.Join(dir, f.Name)
+		pk.Syntax = append(pk.Syntax, parsed[i])
 		pk.GoFiles = append(pk.GoFiles, abs)
 		pk.CompiledGoFiles = append(pk.CompiledGoFiles, abs)
 	}
@@ -210,8 +228,22 @@ func (l *loader) load(p *synth.Pkg) (*packages.Package, error) {
 func Load(spec *synth.Spec) (*Loaded, error) { return LoadAt(spec, VirtualRoot) }
 
 // LoadAt is Load with the module root directory given (files need not exist).
-func LoadAt(spec *synth.Spec, rootDir string) (*Loaded, error) {
-	l := &loader{spec: spec, fset: token.NewFileSet(), root: rootDir, pkgs: map[string]*packages.Package{}, loading: map[string]bool{}, srcs: map[string]string{}}
+func LoadAt(spec *synth.Spec, rootDir string) (*Loaded, error) { return loadAt(spec, rootDir, false) }
+
+// LoadReversed is Load with the other legal order of entry into the FileSet: imported packages before the
+// analysed one, and the files of every package last to first. Token positions of different files then
+// compare the other way round; nothing else changes.
+func LoadReversed(spec *synth.Spec) (*Loaded, error) { return loadAt(spec, VirtualRoot, true) }
+
+func loadAt(spec *synth.Spec, rootDir string, reversed bool) (*Loaded, error) {
+	l := &loader{spec: spec, fset: token.NewFileSet(), root: rootDir, pkgs: map[string]*packages.Package{}, loading: map[string]bool{}, srcs: map[string]string{}, reversed: reversed}
+	if reversed {
+		for i := len(spec.Pkgs) - 1; i > 0; i-- {
+			if _, err := l.load(spec.Pkgs[i]); err != nil {
+				return nil, err
+			}
+		}
+	}
 	root, err := l.load(spec.Root())
 	if err != nil {
 		return nil, err
